@@ -395,3 +395,22 @@ func FileClose(f *os.File) error {
 	}
 	return f.Close()
 }
+
+// ---- preemption points ------------------------------------------------------------------
+//
+// In the instrumented copy every function body and every loop body of the library starts with Point().
+// The scheduler may take the baton away there (decided by the run's PRNG), so that tasks interleave
+// inside library functions and not only at lock operations, file-system calls and operation boundaries.
+// That matters twice: semantic interleavings inside one call become reachable, and the race detector
+// sees the two accesses of a race before an unrelated synchronisation inside the standard library
+// (regexp's and fmt's sync.Pool) has accidentally ordered them.
+
+// PointHook is called at every preemption point while a simulation is running.
+var PointHook func()
+
+// Point is a preemption point.
+func Point() {
+	if h := PointHook; h != nil {
+		h()
+	}
+}
